@@ -9,9 +9,9 @@ DISTINCT_RULE = (
     "cases = seeded books (0-8 levels, gaps, empty sides, tiny/huge sizes) x limit orders through/at/behind the book; distinct = "
     "(side, price relative to best, FOK?, min-fill class, BPE, book depth<=4, response status) cells actually reached in SimulatedOrder.place"
 )
-RULES = ["placement", "level", "fok", "bpe-off", "fragment", "available"]
+RULES = ["placement", "level", "fok", "bpe-off", "fragment", "available", "book-vs-file"]
 MINIMA = {"quick": {"rule_placement": 8000, "rule_fok": 1500, "rule_bpe-off": 800, "rule_fragment": 4000, "rule_available": 300}, "thorough": {"rule_placement": 300000}}
-ASSUMPTIONS = ["book snapshot = runner.ex ladders copied at entry of SimulatedOrder.place", "simulated_full_match runs are exempt from the level clause only"]
+ASSUMPTIONS = ["book snapshot = runner.ex ladders copied at entry of SimulatedOrder.place, itself compared with the reader's accumulation of the raw file for that publish time (rule book-vs-file)", "simulated_full_match runs are exempt from the level clause only"]
 WEIGHTS = [("thin", 3), ("deep", 4), ("nobpe", 3), ("fullmatch", 1), ("lines", 2), ("availprices", 2), ("hostile", 1), ("recorded", 2)]
 SCRIPT = {"n_orders": (4, 12), "p_cancel": 0.1, "p_update": 0.05, "p_replace": 0.25, "p_finest": 0.12}
 
@@ -25,11 +25,28 @@ def plan(tier, seed):
     return cases
 
 
+LISTENER = ({"inplay": True}, {"inplay": False}, {"seconds_to_start": 540}, {"seconds_to_start": 585}, {"max_inplay_seconds": 3})
+
+
 def run(desc):
+    filt = desc["idx"] % 5 == 3 and desc["profile"] not in ("recorded",)
+    if filt:
+        # a listener filter skips part of the recording: what is matched against is still the recorded book of that moment.  The
+        # ladders are left standing at suspensions (persisting bets) and only some runners move per update
+        desc = dict(desc)
+        ov = dict(desc.get("overrides") or {})
+        mp = dict(_sim.PROFILES[desc["profile"]].get("market_params") or {})
+        mp.update(p_keep_books=0.7, p_inplay=1.0, p_book_change=0.35, n_inplay=(4, 10), p_suspend_reopen=0.6)
+        ov["market_params"] = mp
+        desc["overrides"] = ov
     case, snaps = _sim.build(desc)
+    if filt and not case.get("event_processing"):
+        case["listener_kwargs"] = dict(LISTENER[(desc["idx"] // 5) % len(LISTENER)])
     tr = simrun.run_case(case)
+    tr.listener_filters = tuple(case.get("listener_kwargs") or ())
     out = O.Out(PROPERTY)
     O.abort_violation(tr, out)
+    O.book_at_arrival_matches_file(tr, out, snaps)
     O.c05_fills(tr, out)
     O.c05_available(tr, out, snaps)
     return out.result(sample=_sim.sample_of(case, tr) if desc["idx"] < 2 else None)
